@@ -46,6 +46,10 @@ CLAIMED = {
          "Exploration. All 256 DW_EH_PE bytes are decoded under every byte order, address size and base-address subset and compared (value or the specific rejection) with the model; generated sections with every augmentation subset, generated encodings for R/L/P, FDEs before/after/sharing their CIEs, 32/64-bit entries and terminators are iterated and every field compared; address lookups by linear search, by direct unwind-info query and through generated .eh_frame_hdr binary-search tables of every supported entry format must equal an exhaustive scan of the model at and around every FDE boundary. Both build profiles.",
          "Trusts the frame assembler in harness/src/cfimodel.rs and the pointer model in c05.rs (LSB eh_frame spec). The hdr table is built sorted and consistent; cases whose generated FDE ranges overlap are excluded from the table clause.",
          "DESIGN.md §4 C05"),
+ 'C14': ("proptest random frame tables built through gimli's writing API; round trip write->read with the supplied parameters as oracle and an independent call-frame state machine for the meaning of the supplied instructions",
+         "Exploration. Generated frame tables (CIE versions, formats, address sizes, alignment factors incl. 0 and extremes, augmentations, pointer encodings, duplicate and unreferenced CIEs, every CallFrameInstruction variant, code offsets straddling every advance_loc width boundary, on- and off-grid offsets) are written as .debug_frame and .eh_frame and read back: CIE parameters, FDE ranges, personality/LSDA pointers, CIE de-duplication, padding to the address size, and the evaluated unwind rows must equal the state machine run on the supplied instruction list; unencodable requests must be refused. Both build profiles.",
+         "Trusts harness/src/cfimodel.rs for the row semantics and gimli's frame reader (itself checked against the same model in C05/C06) for decoding. Representability limits of pointer formats may be refused.",
+         "DESIGN.md §4 C14"),
 }
 NOT_YET = "check not built yet in this session (machinery is being extended property by property; see DESIGN.md §4)"
 
